@@ -677,7 +677,7 @@ def run(ctx):
         meta.append(m)
 
     dist = {"json": 0, "sha256": 0, "thumb_direct": 0, "thumb_direct_err": 0, "keys": 0, "key_variants": 0, "ec_short": 0,
-            "kid_flows": 0, "histories": 0, "digest_matrix": 0, "import_key_set": 0, "entry_points": 0, "keysets": 0, "generated": 0, "digest_variants": 0, "spec": 0, "fixtures": 0}
+            "kid_flows": 0, "histories": 0, "digest_matrix": 0, "subclass_constructors": 0, "import_key_set": 0, "entry_points": 0, "keysets": 0, "generated": 0, "digest_variants": 0, "spec": 0, "fixtures": 0}
     per_repr = {}
 
     # ---- reference self-check on the RFC vectors (a failure here is a harness bug)
@@ -1159,6 +1159,82 @@ def run(ctx):
                 if cls_of(kty).thumbprint_digest_method != "sha256":
                     raise RuntimeError("harness bug: thumbprint_digest_method of the shared class was not restored")
 
+        # ---- G. every constructing entry point THROUGH A SUBCLASS that selects another digest, for every key type:
+        # the object is a Sub, its thumbprint / auto kid are the values for Sub's digest and equal those of the same
+        # material imported through Sub; a registry / key set with the subclasses registered behaves the same
+        from cryptography.hazmat.primitives.asymmetric import rsa as _rsa
+        sub_specs = gen_specs + ([("RSA", 1024)] if ctx.quick else [("RSA", 1024), ("RSA", 2048)])
+        for dg in ("sha384", "sha512", "sha256"):
+            subs = {kty: type("Sub%s%s" % (kty, dg), (cls_of(kty),), {"thumbprint_digest_method": dg}) for kty in REQ}
+            reg = type("SubRegistry", (JWKRegistry,), {"key_types": dict(subs)})
+            kset_cls = type("SubKeySet", (KeySet,), {"registry_cls": reg})
+            for kty, arg in sub_specs:
+                if dg == "sha256" and ctx.quick and rng.random() < 0.5:
+                    continue
+                Sub = subs[kty]
+                made = []          # (how, key or error)
+                for private in ((True,) if kty == "oct" else (True, False)):
+                    for auto in (True, False):
+                        made.append(("Sub.generate_key(private=%r, auto_kid=%r)" % (private, auto), auto,
+                                     call(lambda: Sub.generate_key(arg, None, private, auto))))
+                made.append(("SubRegistry.generate_key(auto_kid=True)", True, call(lambda: reg.generate_key(kty, arg, {"use": "sig"}, True, True))))
+                made.append(("SubKeySet.generate_key_set", True, call(lambda: kset_cls.generate_key_set(kty, arg, count=1).keys[0])))
+                # imports of one fresh native key through the subclass
+                if kty == "oct":
+                    nk = bytes(rng.randrange(256) for _ in range(arg // 8))
+                elif kty == "RSA":
+                    nk = _rsa.generate_private_key(65537, arg)
+                elif kty == "EC":
+                    nk = det_ec_key(rng, arg)
+                else:
+                    nk = det_okp_key(rng, arg)
+                made.append(("Sub(raw, raw)", False, call(lambda: Sub(nk, nk))))
+                made.append(("Sub.import_key(dict)", False, call(lambda: Sub.import_key(ref_jwk(nk)))))
+                made.append(("SubRegistry.import_key(dict)", False, call(lambda: reg.import_key(ref_jwk(nk)))))
+                made.append(("SubKeySet.import_key_set", True, call(lambda: kset_cls.import_key_set({"keys": [ref_jwk(nk)]}).keys[0])))
+                if kty == "oct":
+                    made.append(("Sub.import_key(bytes)", False, call(lambda: Sub.import_key(nk))))
+                else:
+                    made.append(("Sub.import_key(dict public)", False, call(lambda: Sub.import_key(ref_jwk(public_of(nk))))))
+                    for enc in ("pem", "der"):
+                        for prv in (True, False):
+                            made.append(("Sub.import_key(%s %s)" % (enc, "private" if prv else "public"), False,
+                                         call(lambda: Sub.import_key(serialize(nk, enc, prv)))))
+                    made.append(("SubRegistry.import_key(pem)", False, call(lambda: reg.import_key(serialize(nk, "pem", True), kty))))
+                for how, auto, b in made:
+                    dist["subclass_constructors"] += 1
+                    ctx.note_case(("subclass", dg, kty, arg, how))
+                    sig = {"kind": "subclass-digest", "kty": kty, "how": how.split("(")[0]}
+                    rp = {"fn": "subclass", "kty": kty, "arg": arg, "digest": dg, "how": how}
+                    if b[0] != "ok":
+                        ctx.violation(dict(sig, kind="subclass-raises"), "%s for %s %r with digest %s raised %r" % (how, kty, arg, dg, b[1]), rp)
+                        continue
+                    K = b[1]
+                    pj = ref_jwk(public_of(K.raw_value))
+                    want = ref_thumbprint(pj, dg)
+                    first = call(lambda: K.kid)
+                    rec.take()
+                    r = call(K.thumbprint)
+                    calls = rec.take()
+                    dvs = dict(K.dict_value)
+                    add("CSubKey %s %s %s %s %s" % (c_oracle(calls), c_N(CLS_IDX[kty]), c_dict({k: x for k, x in dvs.items() if k in REQ[kty] or k == "kid"}),
+                                                    c_str(dg), c_res(r, c_str)), ("subclass-key", how, kty, arg, dg))
+                    K.ensure_kid()
+                    again = call(lambda: Sub.import_key(ref_jwk(public_of(K.raw_value)) if kty != "oct" else ref_jwk(K.raw_value)).thumbprint())
+                    problems = []
+                    if type(K) is not Sub:
+                        problems.append("the object is a %s, not the subclass" % type(K).__name__)
+                    if r != ("ok", want):
+                        problems.append("thumbprint %r, RFC 7638 value for %s is %r" % (r[1], dg, want))
+                    if first != ("ok", want if auto else None):
+                        problems.append("kid right after construction %r, expected %r" % (first[1], want if auto else None))
+                    if K.kid != want:
+                        problems.append("kid after ensure_kid %r, expected %r" % (K.kid, want))
+                    if again != ("ok", want) or again != r:
+                        problems.append("the same material imported through the subclass has thumbprint %r" % (again[1],))
+                    if problems:
+                        ctx.violation(sig, "%s for %s %r, subclass with thumbprint_digest_method=%r: %s" % (how, kty, arg, dg, "; ".join(problems)), rp)
+
         # import_key_set of a JWK Set whose members have no kid / an explicit kid (also the falsy ""), with shared parameters
         for _ in range(ctx.scale(25, 300)):
             nats = [rng.choice(materials)[1] for _ in range(rng.randrange(1, 5))]
@@ -1393,6 +1469,43 @@ def replay(path):
                 print("member", m, "is", K.dict_value.get(m), "RFC form", ref_jwk(public_of(native))[m])
                 bad = True
         return 1 if bad else 0
+    if r.get("fn") == "subclass":
+        from joserfc.jwk import JWKRegistry, KeySet
+        kty, arg, dg, how = r["kty"], r["arg"], r["digest"], r["how"]
+        subs = {k: type("Sub" + k, (cls_of(k),), {"thumbprint_digest_method": dg}) for k in REQ}
+        reg = type("SubRegistry", (JWKRegistry,), {"key_types": dict(subs)})
+        kset_cls = type("SubKeySet", (KeySet,), {"registry_cls": reg})
+        Sub = subs[kty]
+        if how.startswith("Sub.generate_key"):
+            K = Sub.generate_key(arg, None, "private=True" in how, "auto_kid=True" in how)
+        elif how.startswith("SubRegistry.generate_key"):
+            K = reg.generate_key(kty, arg, {"use": "sig"}, True, True)
+        elif how.startswith("SubKeySet.generate_key_set"):
+            K = kset_cls.generate_key_set(kty, arg, count=1).keys[0]
+        else:
+            base = cls_of(kty).generate_key(arg)
+            nk = base.raw_value
+            if how == "Sub(raw, raw)":
+                K = Sub(nk, nk)
+            elif how == "SubRegistry.import_key(dict)":
+                K = reg.import_key(ref_jwk(nk))
+            elif how == "SubKeySet.import_key_set":
+                K = kset_cls.import_key_set({"keys": [ref_jwk(nk)]}).keys[0]
+            elif how == "Sub.import_key(bytes)":
+                K = Sub.import_key(nk)
+            elif how == "Sub.import_key(dict public)":
+                K = Sub.import_key(ref_jwk(public_of(nk)))
+            elif how == "SubRegistry.import_key(pem)":
+                K = reg.import_key(serialize(nk, "pem", True), kty)
+            elif how.startswith("Sub.import_key(pem") or how.startswith("Sub.import_key(der"):
+                K = Sub.import_key(serialize(nk, how[15:18], "private" in how))
+            else:
+                K = Sub.import_key(ref_jwk(nk))
+        want = ref_thumbprint(ref_jwk(public_of(K.raw_value)), dg)
+        t = K.thumbprint()
+        K.ensure_kid()
+        print(how, "->", type(K).__name__, "thumbprint", t, "kid", K.kid, " RFC 7638 value for", dg, ":", want)
+        return 1 if (type(K) is not Sub or t != want or (K.kid != want)) else 0
     if r.get("fn") == "import_key_set":
         from joserfc.jwk import KeySet
         ks = KeySet.import_key_set(copy.deepcopy(r["jwks"]), r["parameters"])
